@@ -177,6 +177,17 @@ CHECKS = {
              "resample_multipitch, compute_num_true_positives, metrics and evaluate (exact rationals, 1e-9); outcomes of "
              "larger seeded inputs are judged by Trace_C18.",
         ref="4/C18"),
+    "C20": dict(
+        technique="TLA+ per-line machine of the loaders (IO.tla) enumerated by TLC over all small files; rendered files "
+                  "loaded by the code and compared bit by bit",
+        text="IO.tla specifies load_delimited as a per-line machine (comment, row, too few / extra fields, unparsable number, "
+             "blank; last column takes the rest of the line) with the eight loader schemas and the one-data-line rule of "
+             "key/tempo. MC_C20 enumerates every file of <=3 (4) lines over 7 line kinds x 8 loaders (3,200 files quick) and "
+             "checks the machine sound. Each file is rendered with seeded float literals (exponents, negatives, subnormals) "
+             "and labels (internal blanks, tabs, unicode, commas) under 4 delimiter classes, loaded from a path and a file "
+             "object: structure, order, bit-identical floats, exact strings, ValueError naming the first offending row, "
+             "warnings for convention violations; ragged series and pattern files round-trip.",
+        ref="4/C20"),
 }
 
 PENDING = "check not built yet (build in progress; see DESIGN.md section 10)"
